@@ -385,6 +385,52 @@ def work_corpus(src):
     return n, fails
 
 
+# ----------------------------------------------------------------------------- "the count argument bounds the number of replacements"
+# patterns whose matches overlap each other (sliding windows of a statement sequence, nested / chained expressions): a marker call in the
+# replacement is counted in the result.  (pattern, replacement, marker, source builder)
+def _count_cases():
+    out = []
+    for n in range(1, 10):
+        run = "".join(f"v{k} = 1\n" for k in range(n))
+        out.append(("{{x}} = 1\n{{y}} = 1", "pair_marker({{x}}, {{y}})", "pair_marker(", run))
+        out.append(("{{x}} = 1\n{{y}} = 1\n{{z}} = 1", "triple_marker({{x}}, {{y}}, {{z}})", "triple_marker(", run))
+        out.append(("{{x}} = 1\n{{y}} = 1", "pair_marker({{x}}, {{y}})", "pair_marker(", "def f():\n" + "".join("    " + ln + "\n" for ln in run.splitlines()) + "    return v0\n"))
+        chain = " + ".join(f"a{k}" for k in range(n + 1))
+        out.append(("{{x}} + {{y}}", "add_marker({{x}}, {{y}})", "add_marker(", f"r = {chain}\n"))
+        out.append(("{{x}} + {{y}}", "add_marker({{x}}, {{y}})", "add_marker(", "".join(f"r{k} = p{k} + q{k}\n" for k in range(n))))
+        out.append(("f({{x}})", "call_marker({{x}})", "call_marker(", "r = " + "f(" * n + "0" + ")" * n + "\n"))
+    return out
+
+
+def work_count(case):
+    import importlib
+    P.quiet()
+    pm = importlib.import_module("pyrefact.pattern_matching")
+    pat, rep, marker, src = case
+    fails, n = [], 0
+    unlimited = None
+    for count in (0, 1, 2, 3, 4):
+        n += 1
+        r = P.guarded(lambda s, count=count: pm.subn(pat, rep, s, count=count), src, 60)
+        if r[0] != "ok":
+            fails.append({"cls": f"count:{r[0]}", "what": f"subn({pat!r}, {rep!r}, {src!r}, count={count}) {r[0]}: {r[1]}"})
+            continue
+        out, reported = r[1]
+        made = out.count(marker)
+        if count == 0:
+            unlimited = made
+        if count > 0 and made > count:
+            fails.append({"cls": "count:more-replacements-than-count", "what": f"subn({pat!r}, {rep!r}, {src!r}, count={count}) made {made} replacements: {out!r}"})
+        if unlimited is not None and made > unlimited:
+            fails.append({"cls": "count:more-replacements-than-without-a-bound", "what": f"subn({pat!r}, {rep!r}, {src!r}, count={count}) made {made} replacements, {unlimited} without a bound"})
+        if made == 0 and out != src:
+            fails.append({"cls": "count:changed-without-replacement", "what": f"subn({pat!r}, {rep!r}, {src!r}, count={count}) -> {out!r}"})
+        s2 = pm.sub(pat, rep, src, count=count)
+        if s2 != out:
+            fails.append({"cls": "count:sub-differs-from-subn", "what": f"sub(..., count={count}) -> {s2!r}, subn -> {out!r}"})
+    return n, fails
+
+
 def run(tier, seed):
     rnd = random.Random(seed)
     srcs = sources(tier, rnd)
@@ -419,6 +465,16 @@ def run(tier, seed):
     out.append({"name": "c14-corpus-identity-and-self-substitution", "function": "pattern_matching.sub / subn", "contract": "pattern that does not occur -> byte-identical, count 0; sub(seg, seg) keeps the tree",
                 "space": f"{len(sin)} corpus modules x {len(NOPATS)} absent patterns + up to 5 own segments each", "bound": "corpus sample", "evaluations": n, "distinct_nontrivial": len(sin), "exhaustive": False,
                 "failures": P.cap(fl), "samples": [sin[0][:200]]})
+    cc = _count_cases()
+    r3 = P.pool_map(work_count, cc, chunksize=2)
+    fl, n = [], 0
+    for c, (cnt, fs) in zip(cc, r3):
+        n += cnt
+        for f in fs:
+            fl.append({"id": f"{f['cls']}::{c[0][:30]}::{P.sha(c[3])}", "cls": f["cls"], "input": f"subn({c[0]!r}, {c[1]!r}, {c[3]!r})", "observed": f["what"], "required": "at most `count` replacements are made (counted as marker calls in the result); never more than without a bound; sub agrees with subn"})
+    out.append({"name": "c14-count-bounds-replacements", "function": "pattern_matching.subn / sub", "contract": "for count > 0 the result contains at most `count` instantiated replacements, also where matches overlap each other",
+                "space": f"{len(cc)} cases: statement-sequence windows over runs of 1..9 statements (module / function body), chained and independent binary operations, nested calls x count in 0..4",
+                "bound": "runs of at most 9 matches", "evaluations": n, "distinct_nontrivial": len(cc), "exhaustive": True, "failures": P.cap(fl), "samples": [repr(cc[7])]})
     return out
 
 
